@@ -44,7 +44,7 @@ func (node *tagIncludeNode) Execute(ctx *ExecutionContext, writer TemplateWriter
 		// Get include-filename
 		includedFilename := ctx.template.set.resolveFilename(ctx.template, filename.String())
 
-		includedTpl, err2 := ctx.template.set.FromFile(includedFilename)
+		includedTpl, err2 := ctx.template.set.fromFileReferredBy(includedFilename, ctx.template)
 		if err2 != nil {
 			// if this is ReadFile error, and "if_exists" flag is enabled
 			// (only for the named file itself: a missing file it refers to in turn is an error)
@@ -98,7 +98,7 @@ func tagIncludeParser(doc *Parser, start *Token, arguments *Parser) (INodeTag, *
 
 		// Parse the parent
 		includeNode.filename = includedFilename
-		includedTpl, err := doc.template.set.FromFile(includedFilename)
+		includedTpl, err := doc.template.set.fromFileReferredBy(includedFilename, doc.template)
 		if err != nil {
 			// if this is ReadFile error, and "if_exists" token presents we should create and empty node
 			// (only for the named file itself: a missing file it refers to in turn is an error)
